@@ -113,3 +113,13 @@ Require Copia.Proofs.TieHubSync.
 Theorem C13_client_is_translation_of_source : TieHubSync.hub_sync_is_translation.
 Proof. exact TieHubSync.hub_sync_is_translation_holds. Qed.
 Print Assumptions C13_client_is_translation_of_source.
+
+(** The dispatch of the read loop is the translation of serve.rs `serve` as the source has it now: the served directory
+    and its control directory are created, the prologue is tested, and only when it is the magic every decoded request
+    up to `Bye` goes to its handler with its own fields (Hello -> the server's version; List -> the reviewed listing block;
+    Get / Put / Delete -> handle_get / handle_put / handle_delete); nothing else happens before the prologue is accepted
+    (Gen/ServeLoopGen.v, Proofs/TieServeLoop.v). *)
+Require Copia.Proofs.TieServeLoop.
+Theorem C13_dispatch_is_translation_of_source : TieServeLoop.serve_loop_is_translation.
+Proof. exact TieServeLoop.serve_loop_is_translation_holds. Qed.
+Print Assumptions C13_dispatch_is_translation_of_source.
